@@ -232,7 +232,7 @@ CHECKS["C03"] = dict(
         "BAM writing is covered by C16.",
    technique="TLA+ writer state machine model-checked by TLC; every completed behaviour (table x call history) replayed into bnp.open(...).write on plain/gzip/stream targets and read back",
    design="6/C03")
-EXTRA = {'C03': 'Binding B: files generated from the per-format grammars of C02 are read eagerly and written again; TLC decides written = Serialise(Parse(text)) (Trace_C03). A further target is a table read lazily from the canonical file: after the history of piecewise writes the table must still read as its rows, and one write of np.concatenate([table, table[1:]]) must equal writing the two one after the other. Every column of the lazily read table replaced by itself must write the canonical text; a second header in the same process is driven lazily and eagerly, with and without a replaced column. Chunks handed out by one reader, a column of the first assigned, written through one writer, must give the canonical text.', 'C05': "Table.tla also observes single rows t[j] with Python and NumPy integers; sources include a BED12 file with list-valued columns. A deeper run (depth 5-6) over tolist / get / assign / replace with two tables is part of both tiers. Half of the write-free programs read the non-canonically spelt file (leading zeros, '+', the '.' score placeholder).", 'C06': 'Encoding.tla also admits the empty text and the actions Rewrap (EncodedArray(encoded, B)) and Collect (a list of arrays of two encodings). Join (np.concatenate of arrays held in two alphabets keeps the text), a user-defined alphabet, NumPy str arrays as an input form and characters beyond Latin-1 are included. A user-defined alphabet of brackets ([ and { lie 32 apart without being a letter and its lower case) is part of the alphabet table.', 'C07': 'Further observations: str_equal against a row of the array and decode / string_array of any view. The program remembers the array it was created from, so assignments directly into the first array are driven too, on ragged arrays and on character matrices made from one str. Concat1 (np.concatenate of one operand is a new array), list masks, ASCII text held in a wide integer array, and setrow / setmask on character matrices are included.', 'C08': 'Also: an empty interval inserted anywhere covers nothing (EmptyCoversNothing) and the all-against-all Jaccard matrix of three sets. PileupOfRepeat (TLC-checked) lets a collection listed 130 and 40 000 times stand for large pile-ups; also bedgraph.get_pileup, contigs of three sizes, lookups whose key orders differ, comparisons of pile-ups (boolean run arrays) and Geometry.sort with empty intervals. extend3: the same intervals on contigs of sizes S, S+1, S+2 extended in one call (each clipped at the end of its own contig); Geometry.sort on records with further columns returns the same records.', 'C10': "Also: a streamed (per-chromosome) track under in-memory intervals in any order within a chromosome, and Binned.tla (binned counting over the genome: Count, CountsRight, Conserved) replayed on BinnedGenome. Entries and the per-base track are also read from files through the genome (read_intervals, read_track; in memory and as streams). MapLoc / MapLocInside (map_locations: a location at an interval's stop lies outside it), sort_intervals with a sort_order, a key function and a reversed order, a sort_names genome, and a streamed track indexed through an equal and a reversed genome are included. GlobalOffset (Genome.tla ToGlobal / ToLocal) is replayed on from_local_interval, its do_clip option and to_local_interval; the records of a streamed pile-up must tile every contig. A second genome object over the same contigs in the opposite order, start locations read from a VCF file (read_locations) and BinnedGenome.count_file are replayed as well.", 'C11': 'Graph.tla models the computation graph itself (call stack explicit: Construct, PullArg, Advance, Eval, IssuePull, Collect, Finish; invariants NoAssert, LockStep, InStep, AllLevel, Final); 11 graph shapes x datasets x cut sets are replayed on real StreamNode/ComputationNode/ReductionNode objects through compute(). Counts are additive (BinsOfRepeat, TLC-checked): three datasets repeated stand for k-mer, letter and bin counts over 1 000 000 to 3 000 000 elements, in memory and streamed; merged(d) with intervals touching the ends of their contigs is compared streamed, in memory and with the per-contig definition. Further pipelines: merged and get_pileup fed by one streamed interval object, group-by with a key function and on a key column, a quantile reduction, the mean over windows of unequal width, start windows by flank and by window_size. Arithmetic with the streamed array as the right operand of operators that do not commute (3 - pileup, 2 ** pileup) is a further pipeline.', 'C12': "Streams whose chromosome column is already encoded with the genome's own string encoding are driven as well. Derive (with_ignored_added) is an action whose frame property DeriveFrame says the parent keeps its own ignored names; stranded intervals over a stream are a further pipeline. ContextsCompatible / ReversedIsIncompatible: a track tied to one genome indexed by intervals of a separately built genome (same order: own values; opposite order: refused). A table with two contig columns is grouped on the second (set_grouping_attribute). Synchronise.tla takes two ignored names, so ignored contigs can follow each other in the data; a key function (set_key_function) maps differently spelt names. An unknown contig name whose hash equals that of a genome contig must be refused like any other unknown name.", 'C13': 'Counting is additive (CountsOfRepeat, TLC-checked), so a few states stand for inputs of more than a million windows. A motif given as probabilities with an explicit background (powers of two, so the log odds are integers in TLC) is scored as well. Regex.tla (patterns with letters, classes, wildcards and one or two gaps; a match never leaves its row) is bound here; IndexAgreesWithCounts ties the k-mer index to the counts; row counts are read as a matrix, as a dictionary and by label. CountLog: a motif given as counts (PWM.from_counts) with the letters in reversed and rotated order; patterns with the same class at two positions; k-mers over a sixteen-letter alphabet; label sums, addition and stacking of counts.', 'C14': 'Also: a history of extractions on one GenomicSequence (single intervals, all at once, the whole contig) and every order of the three encodings, each in a freshly forked process. Entries read lazily from a FASTQ file are reverse-complemented (input untouched, twice = input) and intervals are extracted from an indexed FASTA in a rotated order over two contigs, with file order and sorted label order. Transcripts.tla (exons of one transcript joined in file order, the whole transcript turned for the reverse strand) is replayed on get_transcript_sequences; ACTG-ordered alphabets and a text-typed strand column are included. Single sequences already encoded in the ACGT alphabet (poly-A among them) are translated one by one: their own protein, or a refusal.', 'C15': 'Classes also include a non-numeric value after rows with explicitly signed numbers and two records joined by a tab. Further classes: floats with an interior or trailing minus or two decimal points, blank header lines, a malformed last record without a final newline; the line must also be right after lazily read chunks were joined (np.concatenate) before any column was looked at. Integer columns may also start with a capital that is a digit plus 32, a space or a dollar sign. Binding B also injects a cell of more than nineteen characters with a numeric tail and a misplaced line break (one field too few, then one too many).', 'C16': "Also: piecewise writes with an empty first piece, every field of a selection after it was written, and table programs (selections, selection of a selection, concatenation; lazy and eager). The file is also copied chunk by chunk (read_chunks handed to write) and compared byte for byte. CigarWord writes the 32-bit CIGAR word byte by byte, so operation lengths 2^27+5 and 2^28-1 are in scope; two BAM files with different reference lists are read in one process. Templates with 300 CIGAR operations and a read of 65 537 bases exercise the upper bytes of the 16- and 32-bit count fields (Bam.tla's packers are functions of the byte position, so TLC encodes them in a second). A template of 16 400 CIGAR operations (more than 65 535 bytes of CIGAR) is included.", 'C17': 'Also: a 12 MB FASTA spanning several reader chunks checked against the arithmetic index (OffsetsAgree ties it to the byte-level definition) and whole contigs held while others are fetched. Faidx.tla carries the position of the one file handle, batches of fetches (SeeksItself) and Replace (the file under the same path replaced and indexed again); every batch is also fetched in an order where each interval starts at the offset the previous one stopped at, and all files of a worker live under one path. CRLF files (index row lenb = W + 2, WholeCorrect), Genome.read_sequence of another file, and MC_C17big (a 5 MB contig whose read boundary falls on a line end, LF and CRLF) are included. BigRecs2 (six records of 3.3 MB) has its index built from three or more reader chunks; one sequence object is asked through two genomes that list the contigs in opposite orders. BigRecs3 (one record of exactly two raw reads, no final newline, the first read ending on a line break; invariant TwoFullReads) and a sequence object made from the indexed file alone are included.', 'C18': 'Float texts include a leading decimal point; integer lists are also presented as row selections of another ragged array. 17-digit floats with a sign and a two- or three-digit exponent, a formatter-only clause (float(text) == x) and integer matrices held row-major, column-major and strided (matrix_to_csv) are included. Also: missing-value sentinels given as narrower NumPy scalars, unsigned 16-digit integers above 2^53, and an integer-list column of a file handed out twice. Float text is parsed twice from the same array (it must stay as it was); twenty-digit unsigned values go through the formatter.', 'C19': 'Table types include one with a nested-table column two levels deep. Row_ observes t[j] for every position (also -1 and a NumPy integer); one table type is read lazily from a file; after topandas() the frame is edited in place and the pool must stay as it is. Narrow_ (a type derived with narrow_type leaves its parent type as it was), list masks, and table types with a wide sequence column and with a matrix column are included. One table type is extended twice with the same column name and two declared types, every order in a process of its own. Text in a numeric column is also given as byte strings; a text column is also built from single rows taken from two differently encoded columns.', 'C20': "Every registered call is also made on arguments nobody has inspected (content before the call taken from an identical twin), incl. lazily indexed views. A chunk with one replaced column is concatenated with an untouched chunk; the untouched operand must still write its own bytes. The registry also holds calls with arguments already in the callee's encoding (as_encoded_array hands the caller's own object on), columns of tables derived from the argument, and custom chunk sources; a source that cannot be read is a machinery failure, not a pass. Also registered: count_reference_length, a user-defined rolling function with mode='same', the genotype row encoders.", 'C02': 'Further reading modes: a reversed selection before any column is parsed, the whole table after a look at its first rows, sliced chunks concatenated; typed INFO likewise. Formats.tla also defines phased genotype text and codes (PhasedCode, ParseVcfPhased, PhasedInverse), checked on every VCF buffer class; every ordered pair of VCF buffer classes is used in one freshly forked process, lazily and eagerly.', 'C01': 'Binding B also records count_entries(file) as a Count event (accepted iff it is the number of entries) and joins the chunks of a read with np.concatenate itself (one Deliver event with all entries), incl. a VCF with declared INFO keys; binding A does the same join. Also: the first chunk looked at before the chunks are joined, bionumpy.io.files.read, a format whose numbers differ widely in width, and 11 MB files read with the default chunk size (plain and gzip). The chunk stream is also re-cut with chunk_lines (chunks of exactly n entries).', 'C09': 'Also: the same intervals in another order with an empty interval among them (pile-up and mask), and a boolean array over a stream of bedGraph chunks converted back to records. The arrays a genomic array was built from are written to afterwards (it is a value); sums beyond 2^53 must be exact integers; a genome derived with with_ignored_added is a further variant; the driver fails (exit 2) when fewer than half of the vectors deliver back-conversion items. bedGraph values beyond 2^53 survive the back-conversion exactly; a pile-up scaled past 2^31 by plain integers equals the dense 64-bit arithmetic.', 'C04': 'Selections include masks given as Python lists, and tables of k*65536 (+-1) records stand for the internal batch size.'}
+EXTRA = {'C03': 'Binding B: files generated from the per-format grammars of C02 are read eagerly and written again; TLC decides written = Serialise(Parse(text)) (Trace_C03). A further target is a table read lazily from the canonical file: after the history of piecewise writes the table must still read as its rows, and one write of np.concatenate([table, table[1:]]) must equal writing the two one after the other. Every column of the lazily read table replaced by itself must write the canonical text; a second header in the same process is driven lazily and eagerly, with and without a replaced column. Chunks handed out by one reader, a column of the first assigned, written through one writer, must give the canonical text.', 'C05': "Table.tla also observes single rows t[j] with Python and NumPy integers; sources include a BED12 file with list-valued columns. A deeper run (depth 5-6) over tolist / get / assign / replace with two tables is part of both tiers. Half of the write-free programs read the non-canonically spelt file (leading zeros, '+', the '.' score placeholder).", 'C06': 'Encoding.tla also admits the empty text and the actions Rewrap (EncodedArray(encoded, B)) and Collect (a list of arrays of two encodings). Join (np.concatenate of arrays held in two alphabets keeps the text), a user-defined alphabet, NumPy str arrays as an input form and characters beyond Latin-1 are included. A user-defined alphabet of brackets ([ and { lie 32 apart without being a letter and its lower case) is part of the alphabet table.', 'C07': 'Further observations: str_equal against a row of the array and decode / string_array of any view. The program remembers the array it was created from, so assignments directly into the first array are driven too, on ragged arrays and on character matrices made from one str. Concat1 (np.concatenate of one operand is a new array), list masks, ASCII text held in a wide integer array, and setrow / setmask on character matrices are included.', 'C08': 'Also: an empty interval inserted anywhere covers nothing (EmptyCoversNothing) and the all-against-all Jaccard matrix of three sets. PileupOfRepeat (TLC-checked) lets a collection listed 130 and 40 000 times stand for large pile-ups; also bedgraph.get_pileup, contigs of three sizes, lookups whose key orders differ, comparisons of pile-ups (boolean run arrays) and Geometry.sort with empty intervals. extend3: the same intervals on contigs of sizes S, S+1, S+2 extended in one call (each clipped at the end of its own contig); Geometry.sort on records with further columns returns the same records.', 'C10': "Also: a streamed (per-chromosome) track under in-memory intervals in any order within a chromosome, and Binned.tla (binned counting over the genome: Count, CountsRight, Conserved) replayed on BinnedGenome. Entries and the per-base track are also read from files through the genome (read_intervals, read_track; in memory and as streams). MapLoc / MapLocInside (map_locations: a location at an interval's stop lies outside it), sort_intervals with a sort_order, a key function and a reversed order, a sort_names genome, and a streamed track indexed through an equal and a reversed genome are included. GlobalOffset (Genome.tla ToGlobal / ToLocal) is replayed on from_local_interval, its do_clip option and to_local_interval; the records of a streamed pile-up must tile every contig. A second genome object over the same contigs in the opposite order, start locations read from a VCF file (read_locations) and BinnedGenome.count_file are replayed as well.", 'C11': 'Graph.tla models the computation graph itself (call stack explicit: Construct, PullArg, Advance, Eval, IssuePull, Collect, Finish; invariants NoAssert, LockStep, InStep, AllLevel, Final); 11 graph shapes x datasets x cut sets are replayed on real StreamNode/ComputationNode/ReductionNode objects through compute(). Counts are additive (BinsOfRepeat, TLC-checked): three datasets repeated stand for k-mer, letter and bin counts over 1 000 000 to 3 000 000 elements, in memory and streamed; merged(d) with intervals touching the ends of their contigs is compared streamed, in memory and with the per-contig definition. Further pipelines: merged and get_pileup fed by one streamed interval object, group-by with a key function and on a key column, a quantile reduction, the mean over windows of unequal width, start windows by flank and by window_size. Arithmetic with the streamed array as the right operand of operators that do not commute (3 - pileup, 2 ** pileup) is a further pipeline.', 'C12': "Streams whose chromosome column is already encoded with the genome's own string encoding are driven as well. Derive (with_ignored_added) is an action whose frame property DeriveFrame says the parent keeps its own ignored names; stranded intervals over a stream are a further pipeline. ContextsCompatible / ReversedIsIncompatible: a track tied to one genome indexed by intervals of a separately built genome (same order: own values; opposite order: refused). A table with two contig columns is grouped on the second (set_grouping_attribute). Synchronise.tla takes two ignored names, so ignored contigs can follow each other in the data; a key function (set_key_function) maps differently spelt names. An unknown contig name whose hash equals that of a genome contig must be refused like any other unknown name.", 'C13': 'Counting is additive (CountsOfRepeat, TLC-checked), so a few states stand for inputs of more than a million windows. A motif given as probabilities with an explicit background (powers of two, so the log odds are integers in TLC) is scored as well. Regex.tla (patterns with letters, classes, wildcards and one or two gaps; a match never leaves its row) is bound here; IndexAgreesWithCounts ties the k-mer index to the counts; row counts are read as a matrix, as a dictionary and by label. CountLog: a motif given as counts (PWM.from_counts) with the letters in reversed and rotated order; patterns with the same class at two positions; k-mers over a sixteen-letter alphabet; label sums, addition and stacking of counts.', 'C14': 'Also: a history of extractions on one GenomicSequence (single intervals, all at once, the whole contig) and every order of the three encodings, each in a freshly forked process. Entries read lazily from a FASTQ file are reverse-complemented (input untouched, twice = input) and intervals are extracted from an indexed FASTA in a rotated order over two contigs, with file order and sorted label order. Transcripts.tla (exons of one transcript joined in file order, the whole transcript turned for the reverse strand) is replayed on get_transcript_sequences; ACTG-ordered alphabets and a text-typed strand column are included. Single sequences already encoded in the ACGT alphabet (poly-A among them) are translated one by one: their own protein, or a refusal.', 'C15': 'Classes also include a non-numeric value after rows with explicitly signed numbers and two records joined by a tab. Further classes: floats with an interior or trailing minus or two decimal points, blank header lines, a malformed last record without a final newline; the line must also be right after lazily read chunks were joined (np.concatenate) before any column was looked at. Integer columns may also start with a capital that is a digit plus 32, a space or a dollar sign. Binding B also injects a cell of more than nineteen characters with a numeric tail and a misplaced line break (one field too few, then one too many).', 'C16': "Also: piecewise writes with an empty first piece, every field of a selection after it was written, and table programs (selections, selection of a selection, concatenation; lazy and eager). The file is also copied chunk by chunk (read_chunks handed to write) and compared byte for byte. CigarWord writes the 32-bit CIGAR word byte by byte, so operation lengths 2^27+5 and 2^28-1 are in scope; two BAM files with different reference lists are read in one process. Templates with 300 CIGAR operations and a read of 65 537 bases exercise the upper bytes of the 16- and 32-bit count fields (Bam.tla's packers are functions of the byte position, so TLC encodes them in a second). A template of 16 400 CIGAR operations (more than 65 535 bytes of CIGAR) is included.", 'C17': 'Also: a 12 MB FASTA spanning several reader chunks checked against the arithmetic index (OffsetsAgree ties it to the byte-level definition) and whole contigs held while others are fetched. Faidx.tla carries the position of the one file handle, batches of fetches (SeeksItself) and Replace (the file under the same path replaced and indexed again); every batch is also fetched in an order where each interval starts at the offset the previous one stopped at, and all files of a worker live under one path. CRLF files (index row lenb = W + 2, WholeCorrect), Genome.read_sequence of another file, and MC_C17big (a 5 MB contig whose read boundary falls on a line end, LF and CRLF) are included. BigRecs2 (six records of 3.3 MB) has its index built from three or more reader chunks; one sequence object is asked through two genomes that list the contigs in opposite orders. BigRecs3 (one record of exactly two raw reads, no final newline, the first read ending on a line break; invariant TwoFullReads) and a sequence object made from the indexed file alone are included.', 'C18': 'Float texts include a leading decimal point; integer lists are also presented as row selections of another ragged array. 17-digit floats with a sign and a two- or three-digit exponent, a formatter-only clause (float(text) == x) and integer matrices held row-major, column-major and strided (matrix_to_csv) are included. Also: missing-value sentinels given as narrower NumPy scalars, unsigned 16-digit integers above 2^53, and an integer-list column of a file handed out twice. Float text is parsed twice from the same array (it must stay as it was); twenty-digit unsigned values go through the formatter.', 'C19': 'Table types include one with a nested-table column two levels deep. Row_ observes t[j] for every position (also -1 and a NumPy integer); one table type is read lazily from a file; after topandas() the frame is edited in place and the pool must stay as it is. Narrow_ (a type derived with narrow_type leaves its parent type as it was), list masks, and table types with a wide sequence column and with a matrix column are included. One table type is extended twice with the same column name and two declared types, every order in a process of its own. Text in a numeric column is also given as byte strings; a text column is also built from single rows taken from two differently encoded columns.', 'C20': "Every registered call is also made on arguments nobody has inspected (content before the call taken from an identical twin), incl. lazily indexed views. A chunk with one replaced column is concatenated with an untouched chunk; the untouched operand must still write its own bytes. The registry also holds calls with arguments already in the callee's encoding (as_encoded_array hands the caller's own object on), columns of tables derived from the argument, and custom chunk sources; a source that cannot be read is a machinery failure, not a pass. Also registered: count_reference_length, a user-defined rolling function with mode='same', the genotype row encoders.", 'C02': 'Further reading modes: a reversed selection before any column is parsed, the whole table after a look at its first rows, sliced chunks concatenated; typed INFO likewise. Formats.tla also defines phased genotype text and codes (PhasedCode, ParseVcfPhased, PhasedInverse), checked on every VCF buffer class; every ordered pair of VCF buffer classes is used in one freshly forked process, lazily and eagerly.', 'C01': "Binding B also records count_entries(file) as a Count event (accepted iff it is the number of entries) and joins the chunks of a read with np.concatenate itself (one Deliver event with all entries), incl. a VCF with declared INFO keys; binding A does the same join. Also: the first chunk looked at before the chunks are joined, bionumpy.io.files.read, a format whose numbers differ widely in width, and 11 MB files read with the default chunk size (plain and gzip). The chunk stream is also re-cut with chunk_lines (chunks of exactly n entries). A third joined mode looks at the head of every chunk (a selection that shares the chunk's tables) before the chunks are concatenated.", 'C09': 'Also: the same intervals in another order with an empty interval among them (pile-up and mask), and a boolean array over a stream of bedGraph chunks converted back to records. The arrays a genomic array was built from are written to afterwards (it is a value); sums beyond 2^53 must be exact integers; a genome derived with with_ignored_added is a further variant; the driver fails (exit 2) when fewer than half of the vectors deliver back-conversion items. bedGraph values beyond 2^53 survive the back-conversion exactly; a pile-up scaled past 2^31 by plain integers equals the dense 64-bit arithmetic.', 'C04': 'Selections include masks given as Python lists, and tables of k*65536 (+-1) records stand for the internal batch size.'}
 for _k, _v in EXTRA.items():
     CHECKS[_k]["text"] = CHECKS[_k]["text"] + " " + _v
 PENDING = {}
